@@ -48,8 +48,9 @@ def individual_rows(id_, dataval, dim, long=False):
 def table(cohort, dim, long_first=False):
     rows = []
     for k, (id_, dv) in enumerate(cohort):
-        # "workers" scenarios: strongly decreasing work per individual, so that completion order differs from submission order
-        rows += individual_rows(id_, dv, dim, long=([250, 60, 12, 5][min(k, 3)] if long_first else False))
+        # "workers" scenarios: very uneven work per individual, neither increasing nor decreasing along the cohort, so that the
+        # completion order - and any re-ordering of the tasks by size - differs from the submission order
+        rows += individual_rows(id_, dv, dim, long=([60, 250, 5, 12][min(k, 3)] if long_first else False))
     return pd.DataFrame(rows)
 
 
@@ -90,9 +91,12 @@ class Runner:
                 out["totals"] = [float(st["nll_attach"]), float(st["nll_regul_ind_sum"])]
                 out["sums"] = [float(terms["attach"].double().sum()), float(terms["regul"].double().sum())]
             if "chain" in want:
+                # both sampling-based estimators of the same seeded chain (mean of the kept draws, lowest-loss kept draw)
                 ip = model.personalize(df, "mean_posterior", n_iter=6, seed=self.seed, progress_bar=False)
                 d = ip.to_dataframe()
-                out["chain"] = {i: d.loc[i].values.tolist() for i in d.index}
+                ip2 = BaseModel.load(self.path).personalize(df, "mode_posterior", n_iter=6, seed=self.seed, progress_bar=False)
+                d2 = ip2.to_dataframe()
+                out["chain"] = {i: d.loc[i].values.tolist() + d2.loc[i].values.tolist() for i in d.index}
                 out["chain_ids"] = list(ip._indices)
             if "optim" in want:
                 ip = BaseModel.load(self.path).personalize(df, "scipy_minimize", seed=self.seed, progress_bar=False, n_jobs=n_jobs, **SCIPY_KW)
